@@ -1,10 +1,13 @@
 package main
 
 import (
+	"fmt"
 	"go/ast"
 	"go/types"
 	"sort"
 	"strings"
+
+	"golang.org/x/tools/go/ssa"
 )
 
 var locTypes = map[string]bool{
@@ -28,9 +31,9 @@ var c12HashExceptions = ExcTable{
 func init() {
 	register(&Property{
 		ID: "C12",
-		Explanation: "Decides a structural necessary condition of cascade preservation, not the cascade itself: the equality used by CSS rule merging and duplicate-rule removal (css_ast.*.Equal / EqualIgnoringWhitespace, reached from DuplicateRuleRemover, mangleRules and the linker's cross-file removal) reads every semantic field of every CSS AST node type through BOTH operands (location fields excepted; derived fields listed as reviewed exceptions), pointer-typed fields are compared by content on both sides and not only against nil, and every field hashed by a node's Hash() is also compared by its Equal() (else hash-bucketed duplicate removal mis-pairs rules). If a field is missed, two rules differing only in it are 'equal' and one is deleted or merged away. NOT covered: selector-safety reasoning in mangleRules, shorthand collapsing, colour/calc arithmetic, nesting expansion, import order, local-name renaming.",
+		Explanation: "R3: duplicate removal keeps the last of two rules that compare Equal, which is cascade-neutral only for rules whose effect does not depend on their first position; css_ast.RAtLayer.Equal and RAtImport.Equal must therefore return the constant false on every path (layer order is first-declaration order). Decides a structural necessary condition of cascade preservation, not the cascade itself: the equality used by CSS rule merging and duplicate-rule removal (css_ast.*.Equal / EqualIgnoringWhitespace, reached from DuplicateRuleRemover, mangleRules and the linker's cross-file removal) reads every semantic field of every CSS AST node type through BOTH operands (location fields excepted; derived fields listed as reviewed exceptions), pointer-typed fields are compared by content on both sides and not only against nil, and every field hashed by a node's Hash() is also compared by its Equal() (else hash-bucketed duplicate removal mis-pairs rules). If a field is missed, two rules differing only in it are 'equal' and one is deleted or merged away. NOT covered: selector-safety reasoning in mangleRules, shorthand collapsing, colour/calc arithmetic, nesting expansion, import order, local-name renaming.",
 		Run: func(p *Prog, tier string) []*RuleResult {
-			return []*RuleResult{c12EqCoverage(p), c12HashSubset(p)}
+			return []*RuleResult{c12EqCoverage(p), c12HashSubset(p), c12NeverEqualRule(p)}
 		},
 	})
 }
@@ -212,5 +215,56 @@ func c12HashSubset(p *Prog) *RuleResult {
 	}
 	r.Floor(20)
 	r.StaleCheck(c12HashExceptions)
+	return r
+}
+
+// C12/R3 order-sensitive rules never compare equal.
+//
+// Duplicate-rule removal (css_parser RemoveDuplicateRules / the linker's cross-file pass) keeps the
+// LAST of two rules that compare Equal. That is only cascade-neutral for rules whose effect does
+// not depend on where they FIRST appear. Two kinds do depend on it:
+//   @layer  — layer order is the order of first declaration; dropping an earlier `@layer a`
+//             (statement or block) moves layer a behind layers declared in between and flips the
+//             winner between layers;
+//   @import — conditions and position-dependent semantics, handled by the bundler itself.
+// So for these kinds Equal must answer false on every path.
+var c12NeverEqual = map[string]string{
+	"RAtLayer":  "cascade layer order is the order of first declaration, so an earlier duplicate cannot be dropped in favour of a later one",
+	"RAtImport": "imports are position dependent and are resolved by the bundler, never merged by text equality",
+}
+
+func c12NeverEqualRule(p *Prog) *RuleResult {
+	r := NewRule("C12/R3 order-sensitive-never-equal", "rule kinds whose meaning depends on their first position (@layer, @import) never compare Equal, so duplicate removal, which keeps the last copy, cannot touch them")
+	var names []string
+	for n := range c12NeverEqual {
+		names = append(names, n)
+	}
+	sort.Strings(names)
+	for _, n := range names {
+		r.Instances++
+		key := n + ".Equal"
+		fn := p.FindFunc("css_ast.(*" + n + ").Equal")
+		if fn == nil {
+			r.Fail(key, "", "method css_ast.(*"+n+").Equal not found")
+			continue
+		}
+		bad := ""
+		rets := 0
+		eachInstr(fn, func(b *ssa.BasicBlock, in ssa.Instruction) {
+			ret, ok := in.(*ssa.Return)
+			if !ok || len(ret.Results) != 1 {
+				return
+			}
+			rets++
+			if !isConstBool(ret.Results[0], false) {
+				bad = p.Pos(ret.Pos())
+			}
+		})
+		if bad != "" || rets == 0 {
+			r.Fail(key, bad, "css_ast."+n+".Equal can answer true: "+c12NeverEqual[n]+"; duplicate removal keeps only the last of two equal rules")
+		} else {
+			r.OK(key, true, fmt.Sprintf("all %d returns are the constant false", rets))
+		}
+	}
 	return r
 }
